@@ -212,6 +212,7 @@ func (route *Route) InspectRoute(
 				return math.Int{}, RouteResult{}, err
 			}
 			amountsExact[i] = weight.MulInt(amountExact).Quo(weightSum).TruncateInt()
+			amountsExactSum = amountsExactSum.Add(amountsExact[i])
 		}
 		// For avoiding rounding errors
 		amountsExact[length-1] = amountExact.Sub(amountsExactSum)
